@@ -298,20 +298,25 @@ class IntegrateAlphaConvert(_Alpha):
 
     file = "funsor/integrate.py"
     qualname = "Integrate._alpha_convert"
-    mutants = (("measure not renamed", "log_measure = substitute(self.log_measure, alpha_subs)", "log_measure = self.log_measure"),)
+    mutants = (
+        ("measure not renamed", "log_measure = substitute(self.log_measure, alpha_subs)", "log_measure = self.log_measure"),
+        ("names the integrand lacks are not renamed", "            for k, v in alpha_subs.items()\n        }", "            for k, v in alpha_subs.items()\n            if k in self.integrand.inputs\n        }"),
+    )
+    bound = {"i": "Bint[n]", "j": "Bint[m]", "k": "Bint[c]"}
 
     def make_self(self):
+        # i occurs in both, j only in the integrand, k only in the measure (a mixture component index)
         s = Obj()
         s.bound = dict(self.bound)
-        s.log_measure = Body("log_measure", [("i", "Bint[n]")])
+        s.log_measure = Body("log_measure", [("i", "Bint[n]"), ("k", "Bint[c]")])
         s.integrand = Body("integrand", [("i", "Bint[n]"), ("j", "Bint[m]")])
-        s.reduced_vars = frozenset([VarTok("i", "Bint[n]"), VarTok("j", "Bint[m]")])
+        s.reduced_vars = frozenset([VarTok("i", "Bint[n]"), VarTok("j", "Bint[m]"), VarTok("k", "Bint[c]")])
         return s
 
     def ensures(self, ctx, result):
         s = ctx.self_
         M = M_of(ctx.alpha, self.bound)
-        return [("measure_integrand_and_binders_renamed_with_the_same_map", result == (("subst", s.log_measure, M), ("subst", s.integrand, M), frozenset([self.var(ctx, "i", "Bint[n]"), self.var(ctx, "j", "Bint[m]")])))]
+        return [("measure_integrand_and_binders_renamed_with_the_same_map", result == (("subst", s.log_measure, M), ("subst", s.integrand, M), frozenset([self.var(ctx, "i", "Bint[n]"), self.var(ctx, "j", "Bint[m]"), self.var(ctx, "k", "Bint[c]")])))]
 
 
 # ---- gensym / _alpha_mangle ---------------------------------------------------------------------------------
